@@ -56,9 +56,9 @@ CLAIMED = {
             "The property is schedule independence, and the simulator owns every schedule okane depends on: per-process hash keys (content-hashed interned strings + seeded SipHash for every HashMap/HashSet in okane), glob enumeration order, stream chunking with short reads/writes and EINTR, and the calendar date. Each seeded world (accepted and failing ledgers, multi-commodity accounts, price diamonds, include trees) is run with 2-6 commands in 2-6 processes; stdout bytes, success/failure and the rendered error chain must be identical.",
             "Hash maps inside dependencies keep RandomState (their order never reaches output). Simulated orders are a subset of what production can produce."),
     "C15": ("exploration",
-            "deterministic simulation: seeded CSV and camt.053 statements with hostile text, imported by 2-3 simulated processes differing in hash seed and in the chunking of the YAML / statement streams (short writes and EINTR on stdout for the shipped command); printed output parsed back with okane's parser and compared with the built trees",
+            "deterministic simulation: seeded CSV, camt.053 and Viseca statements with hostile text, imported by 2-3 simulated processes differing in hash seed and in the chunking of the YAML / statement streams (short writes and EINTR on stdout for the shipped command); printed output parsed back with okane's parser and compared with the built trees",
             "Statements under drawn importer configurations whose payee, note, category and party names carry text the ledger syntax is sensitive to (';', leading '(' '*' '!', two spaces, tab, line break inside a quoted field, fake posting lines and transaction headers, surrounding spaces, quotes, commas, '=' '@', full-width text, empty) are imported through the library path and the shipped command in several simulated processes; all must print identical bytes. The output is parsed with okane's own parser and compared field by field with the tree Txn::to_double_entry built (numbers by value; printed scale between the value's own and the configured precision); appending to a ledger must grow the entry count by exactly the record count.",
-            "Weak-to-medium simulation contribution (stream schedules, hash seed). Viseca is not covered. Three known findings (payee with ';', payee starting with '(', note read back as metadata) are listed in known_findings.json."),
+            "Weak-to-medium simulation contribution (stream schedules, hash seed). CSV, camt.053 and Viseca importers are exercised. Four known findings (payee with ';', payee starting with '(', note read back as metadata, code containing ')') are listed in known_findings.json."),
     "C16": ("exploration",
             "deterministic simulation with fault injection: a model bank account emits consecutive CSV statements under a drawn configuration; every imported row compared with the model; the import -> append -> book-keeping pipeline under exactly-once, duplicated, lost and reordered deliveries judged by the reference model",
             "A model bank account produces 1-3 consecutive CSV statements (column layout by index / label / template, delimiter, skipped head lines, date formats, amount or credit/debit columns, optional balance, commodity, rate / quantity / symbol, category, note and fee columns, either row order, asset or liability; conversion specs as document default or by rewrite rule: extract / compute, price_of_primary / price_of_secondary, commodity override, disabled). Each row's transaction (account posting, counter posting or secondary amount, the stated rate on every posting in the commodity it prices, fee postings, assertion, order, oldest first) is compared with the model in 2-3 simulated processes with chunked streams. Then funding + the printed output of the deliveries (exactly once in order; one statement duplicated, lost, or two swapped) is book-kept by okane and by the reference model built from the expected transactions: same verdict, same final balance, and the statement's last balance for an asset account delivered exactly once.",
